@@ -195,6 +195,10 @@ fn wait_for_turn(mut g: std::sync::MutexGuard<'_, Option<Inner>>, me: usize) {
             let inner = g.as_mut().unwrap();
             if inner.running == me {
                 if me < inner.n {
+                    // being given the baton counts as activity of this thread: it may perform the
+                    // access it was parked in front of and reach an op boundary without passing
+                    // another yield point (this is what `steps_by_others` is for)
+                    inner.steps_by[me] += 1;
                     let site = inner.parked_site[me];
                     if site != 0 {
                         let now = circ::verif::global_epoch();
